@@ -200,7 +200,9 @@ func c10args(c *h.Ctx, idx int, r *h.Rand) {
 		args = append(args, "--")
 		args = append(args, words...)
 	}
-	res := tc{Dir: real}.run(c, args...)
+	// taskctl itself was started with an ARGS variable in its environment (a nested run, a CI system): what the tasks
+	// see is still exactly what follows `--` on THIS command line
+	res := tc{Dir: real, Env: []string{"ARGS=inherited from the parent"}}.run(c, args...)
 	c.Eval(1)
 	got := lines(h.ReadFile(trace))
 	cas := map[string]interface{}{"argv": args, "exit": res.Exit, "trace": got, "stderr": tail(stripANSI(string(res.Stderr)), 400)}
@@ -293,6 +295,15 @@ func c10undef(c *h.Ctx, idx, n, pos int, where string, allow bool) {
 	}
 	t := gen.OM{{K: "command", V: cmds}, {K: "allow_failure", V: allow}}
 	switch where {
+	case "variable":
+		// the command refers to a variable whose VALUE is a template over something undefined
+		t.Set("variables", gen.OM{{K: "Banner", V: "deploying {{.NotDefinedAnywhere}} now"}})
+		cmds[pos] = fmt.Sprintf("printf 'c%d[%%s]\\n' '{{.Banner}}' >> '%s'", pos, trace)
+		t.Set("command", cmds)
+		want = nil
+		for i := 0; i < pos; i++ {
+			want = append(want, fmt.Sprintf("c%d[ok]", i))
+		}
 	case "before":
 		t.Set("before", []interface{}{fmt.Sprintf("printf 'before[%%s]\\n' '{{.NotDefinedAnywhere}}' >> '%s'", trace)})
 	case "dir":
@@ -353,7 +364,7 @@ func c10(c *h.Ctx) {
 				u++
 			}
 		}
-		for _, where := range []string{"before", "dir"} {
+		for _, where := range []string{"before", "dir", "variable"} {
 			i, n, where := u, n, where
 			jobs = append(jobs, func() { c10undef(c, i, n, 0, where, n%2 == 0) })
 			u++
